@@ -1,9 +1,9 @@
 """C15 - per-call tau / limit_sigma mean exactly what the model-level setting means.
 E1 metamorphic: two real executions per comparison (DESIGN §6 C15)."""
-from vf import core, lib, spaces
+from vf import core, e2, lib, spaces
 
 PID = "C15"
-LEVEL = "exploration"
+LEVEL = "model_checking"
 REL = 1e-12
 RULE = ("games: S2 and T3|V6, sigma alphabets extended by 0.01*beta so both options are visible, every weak order; per game "
         "24 comparisons Model(s').rate(g, arg) == Model(arg).rate(g): tau arg in {0, 0.0, 1e-300, tau0, 2beta} x model tau "
@@ -124,6 +124,9 @@ def run_unit(unit, ctx):
 
 
 def replay(case):
+    if case.get("engine") == "E2":
+        core.deterministic_ids(0)
+        return e2.replay(case)
     kind, cfg, game = lib.uncase_game(case)
     msgs, _, _ = eval_case(kind, cfg, game, tuple(case["ranks"]), only=case["label"])
     return [m for _, _, m in msgs]
@@ -131,9 +134,31 @@ def replay(case):
 
 def main(ctx, t0):
     acc = core.run_units(units(ctx), run_unit, ctx)
-    extra = {"exhaustive": True, "comparisons_per_game": len(comparisons(spaces.config("K0")))}
+    core.deterministic_ids(0)
+    searches = [(k, c, "reduced") for k in spaces.KINDS for c in ("default", "limit", "tau0", "tau2b")]
+    stats, a2 = e2.explore(searches, 3 if ctx.thorough else 2, ctx, chunk=16, invs=("I6",))
+    for v in a2.violations:
+        v["property"] = PID
+        v["key"] = "E2:" + v["key"]
+        v["case"]["engine"] = "E2"
+        acc.violations.append(v)
+    for k, c in a2.count.items():
+        if k.startswith("viol:I6"):
+            acc.count[k] = c
+            acc.viol_count += c
+    states = sum(s["states"] for s in stats.values())
+    transitions = sum(s["transitions"] for s in stats.values())
+    acc.evals += transitions
+    extra = {"exhaustive": True, "comparisons_per_game": len(comparisons(spaces.config("K0"))), "states": states,
+             "transitions": transitions, "traces_validated_against_impl": transitions, "e2": {"/".join(k): v for k, v in stats.items()}}
     return core.finish(PID, ctx, LEVEL, acc, RULE, extra, ASSUMPTIONS, t0)
 
 
 def replay_unit(unit, ctx):
+    if unit and isinstance(unit[0], (list, tuple)):  # an E2 expansion unit
+        core.deterministic_ids(0)
+        acc = e2._expand(unit, ctx)
+        for v in acc.violations:
+            v["key"] = "E2:" + v["key"]
+        return acc
     return run_unit(unit, ctx)
